@@ -565,6 +565,64 @@ def check_malformed(recs, verdicts):
     return mism, fails, samples, evals, dict(unmodelled)
 
 
+def gprod_shape_oracle(rng, n):
+    """SDEs that ALSO define g_prod / f_and_g_prod whose result has an inconsistent (often broadcastable) size: check_contract
+    collects those sizes too ("Batch / State sizes not consistent."), so the call must be rejected with ValueError up-front."""
+    import torchsde
+    dt64 = torch.float64
+    fails, evals = [], 0
+    for _ in range(n):
+        b, d = rng.choice([2, 3, 4]), rng.choice([2, 3])
+        noise = rng.choice(['diagonal', 'general', 'additive'])
+        m = d if noise == 'diagonal' else rng.choice([1, 2, 3])
+        sde_type = rng.choice(['ito', 'stratonovich'])
+        which = rng.choice(['g_prod', 'f_and_g_prod'])
+        bad = rng.choice([(b, 1), (1, d), (b, d + 1), (b + 1, d)])
+        adjoint = rng.random() < 0.5
+
+        class S(nn.Module):
+            def __init__(self):
+                super().__init__()
+                self.noise_type, self.sde_type = noise, sde_type
+                self.p = nn.Parameter(torch.tensor(1.0, dtype=dt64))
+
+            def f(self, t, y):
+                return -self.p * y
+
+            def g(self, t, y):
+                return 0.3 * self.p * (torch.ones(b, d, dtype=dt64) if noise == 'diagonal' else torch.ones(b, d, m, dtype=dt64))
+        if which == 'g_prod':
+            S.g_prod = lambda self, t, y, v: 0.3 * self.p * torch.ones(bad, dtype=dt64)
+        else:
+            S.f_and_g_prod = lambda self, t, y, v: (-self.p * y, 0.3 * self.p * torch.ones(bad, dtype=dt64))
+        sde = S()
+        y0 = torch.full((b, d), 0.1, dtype=dt64)
+        method = 'euler' if sde_type == 'ito' else 'midpoint'
+        Probe.install()
+        Probe.reset()
+        cls_name, msg = 'ok', ''
+        try:
+            with warnings.catch_warnings():
+                warnings.simplefilter('ignore')
+                if adjoint:
+                    out = torchsde.sdeint_adjoint(sde, y0, [T0, T1], dt=DT, method=method)
+                    out.sum().backward()
+                else:
+                    torchsde.sdeint(sde, y0, [T0, T1], dt=DT, method=method)
+        except Exception as e:  # noqa
+            cls_name, msg = type(e).__name__, str(e)
+        evals += 1
+        integrated = sum(Probe.started.values()) + sum(Probe.bm.values()) + sum(Probe.integ.values())
+        if cls_name != 'ValueError' or integrated:
+            fails.append(dict(kind='inconsistent-g_prod-size-accepted' if cls_name == 'ok' else 'wrong-error-class',
+                              api='sdeint_adjoint' if adjoint else 'sdeint', noise=noise, sde_type=sde_type, y0_shape=[b, d], m=m,
+                              method_defined=which, its_output_shape=list(bad), observed=dict(cls=cls_name, msg=msg[:160], integrated=integrated),
+                              expected='ValueError before any integration'))
+            if len(fails) >= 2:
+                break
+    return fails, evals
+
+
 # ---------------------------------------------------------------------------------------------------------------------
 def run(rep, tier, seed):
     t0 = time.time()
@@ -655,6 +713,10 @@ def run(rep, tier, seed):
            not fails4, json.dumps(fails4[:1], default=str)[:1200])
     rep._f += fails4
     n_eval += mevals
+    fails5, ev5 = gprod_shape_oracle(rng, 40 if quick else 600)
+    rep.ob('oracle:inconsistent-g_prod-sizes-on-real-code', f"{ev5} calls", not fails5, json.dumps(fails5[:1], default=str)[:900])
+    rep._f += fails5
+    n_eval += ev5
     distinct |= {('M', encode(r)) for r in recs}
 
     exhaustive_adj = not quick
